@@ -42,6 +42,8 @@ pub struct Checks {
     pub last_checked: BTreeMap<(&'static str, ActorID), cid::Cid>,
     pub cached_active: BTreeMap<ActorID, Pow>,
     pub prev_locked: BTreeMap<ActorID, BigInt>,
+    /// (state CID, recomputed obligations) per miner
+    pub obligations: BTreeMap<ActorID, (cid::Cid, BigInt)>,
     /// power granted at genesis to an idle miner (fixture), not backed by sectors
     pub phantom: BTreeMap<ActorID, Pow>,
     pub registry: std::rc::Rc<super::verified::RegistryView>,
@@ -305,6 +307,34 @@ impl Checks {
             vassert!(!mv.fee_debt.is_negative() && !mv.ip.is_negative() && !mv.pcd.is_negative() && !mv.locked.is_negative(), "negative-ledger", "miner {} has a negative ledger entry", m.id);
             sum += &mv.ip + &mv.locked;
             deposits += &self.deposits[&m.id];
+            if c01 {
+                // solvency against the obligations themselves (not only their recorded totals): deposits of the outstanding
+                // pre-commitments + the vesting table + the pledge of every live / pending-termination sector
+                let obligations = match self.obligations.get(&m.id) {
+                    Some((cid, o)) if *cid == mv.state_cid => o.clone(),
+                    _ => {
+                        let mut o: BigInt = mv.precommits.values().map(|p| &p.deposit).sum();
+                        o += mv.vesting.iter().map(|(_, a)| a).sum::<BigInt>();
+                        let mut counted: BTreeSet<u64> = BTreeSet::new();
+                        for d in &mv.deadlines {
+                            for p in &d.partitions {
+                                counted.extend(p.sectors.difference(&p.terminated));
+                                for s in p.early_terminated.values() {
+                                    counted.extend(s.iter());
+                                }
+                            }
+                        }
+                        for s in &counted {
+                            if let Some(x) = mv.sectors.get(s) {
+                                o += &x.pledge;
+                            }
+                        }
+                        self.obligations.insert(m.id, (mv.state_cid, o.clone()));
+                        o
+                    }
+                };
+                vassert!(bal.atto() >= &obligations, "miner-insolvent", "miner {} balance {} < obligations {} (outstanding pre-commit deposits + vesting table + pledge of live sectors); recorded deposits {} vesting {} pledge {}", m.id, bal, obligations, mv.pcd, mv.locked, mv.ip);
+            }
             if !c03 || self.last_checked.get(&("ledger", m.id)) == Some(&mv.state_cid) {
                 continue;
             }
